@@ -67,6 +67,10 @@ class MessageHandler(Virtual):
         """We put MBOX-MESSAGE in here so we don't have to re-check
         the first line of the mbox file before returning a true or false
         result."""
+        # Like the folders, messages live in real files only: the mailbox
+        # library opens a path of its own, not a member of an archive.
+        if type(self.vfs) is not VFS_Real:
+            return False
         if not self.selectorargs:
             return False
 
